@@ -12,3 +12,9 @@ impl<'a> RecoveryScanner<'a> {
         unimplemented!()
     }
 }
+
+// post-scan pass over the rebuilt index (unit expired_winners verifies it): appends the extents of expired winners
+impl FeoxStore {
+    #[verifier::external_body]
+    pub fn remove_expired_recovery_winners(&self, now: u64, format: &FormatAny, retired_extents: &mut Vec<(u64, usize)>) -> Result<()> { unimplemented!() }
+}
